@@ -140,7 +140,7 @@ impl<'h> FindMatchesImpl<'h> {
             return;
         }
         let end = matched.span().end;
-        self.advance_to(end);
+        self.advance_to(end + self.offset);
     }
 
     /// Advances the given char_indices iterator to the end of the given match.
@@ -166,13 +166,13 @@ impl<'h> FindMatchesImpl<'h> {
     /// If the new position is less than the current position of the char_indices iterator, the
     /// function returns the current position of the char_indices iterator.
     pub(crate) fn advance_to(&mut self, position: usize) -> usize {
-        if position < self.last_position {
+        if position < self.last_position + self.offset {
             // The new position is less than the current position of the char_indices iterator.
             // The iterator is advanced by one character and the next character is not returned by
             // the iterator.
-            return self.last_position;
+            return self.last_position + self.offset;
         }
-        let mut new_position = 0;
+        let mut new_position = self.last_position;
         let mut line_start_offsets = vec![];
         let mut last_char = self.last_char;
         for (i, c) in self.char_indices.by_ref() {
@@ -181,7 +181,7 @@ impl<'h> FindMatchesImpl<'h> {
             }
             last_char = c;
             new_position = i;
-            if i + c.len_utf8() >= position {
+            if i + self.offset + c.len_utf8() >= position {
                 break;
             }
         }
@@ -193,7 +193,7 @@ impl<'h> FindMatchesImpl<'h> {
         }
         self.last_char = last_char;
         self.last_position = new_position;
-        new_position
+        new_position + self.offset
     }
 
     /// Retrieve the total offset of the char indices iterator in bytes.
